@@ -46,6 +46,9 @@ func (s ctxSpy) MarshalSlogObject(enc *slog.PrintCtx) error {
 
 var errShared = errors.New("shared error value")
 
+// c08big is an attribute value that makes a record longer than 64 KiB
+var c08big = strings.Repeat("big-0123456789abcdef-", 3500)
+
 // c08instant is the instant of the time-only calls
 var c08instant = time.Date(2031, 5, 6, 7, 8, 9, 0, time.UTC)
 
@@ -277,6 +280,9 @@ func c08stress(c *Ctx) {
 					// two attributes of an application type that implements slog.Attr by value and cannot be compared with ==
 					// (a func field), under keys that sort next to each other
 					args = append(args, c07lazyAttr{"lz1", func() any { return id }}, c07lazyAttr{"lz2", func() any { return id }})
+					if gr.P(1) {
+						args = append(args, "big", c08big) // (a record of more than 64 KiB: one Write all the same)
+					}
 					if valuePos && lgs[li].f == FJSON {
 						args = append(args, "pay", sharedValueGroup, "lst", sharedValueList)
 					}
@@ -611,7 +617,7 @@ func c08judge(f Format, p []byte, ownKeys []string, multiline bool, extraLines i
 		allowed[k] = true
 	}
 	for k := range got {
-		if _, ok := want[k]; ok || k == "n" || k == "pc.x" || k == "err" || k == "err.message" || k == "serr" || strings.HasPrefix(k, "serr.") || allowed[k] || (strings.HasPrefix(k, "x") && len(k) == 4) {
+		if _, ok := want[k]; ok || k == "n" || k == "pc.x" || k == "err" || k == "err.message" || k == "serr" || strings.HasPrefix(k, "serr.") || k == "big" || allowed[k] || (strings.HasPrefix(k, "x") && len(k) == 4) {
 			continue
 		}
 		return id, fmt.Sprintf("unexpected attribute %s=%q", k, got[k])
